@@ -17,7 +17,8 @@ import (
 
 type step struct {
 	Seq    uint64 `json:"seq"`
-	Accept bool   `json:"accept"` // invoke the callback when the check succeeds
+	Accept bool   `json:"accept"`          // invoke the callback when the check succeeds
+	Defer  int    `json:"defer,omitempty"` // C04: invoke the callback only after this many further steps (0 = at once)
 }
 
 type history struct {
@@ -157,8 +158,26 @@ func run(prop string, h *history, r *res.Result) (v *verdict) {
 		d = replaydetector.New(h.Window, h.Max)
 	}
 	m := newModel(h)
+	type deferred struct {
+		acc func() bool
+		seq uint64
+		due int
+	}
+	var pending []deferred
 	for i, st := range h.Steps {
 		at = i
+		// callbacks whose invocation was put off until now (C04 only): other numbers may have been accepted in between
+		for len(pending) > 0 && pending[0].due <= i {
+			p := pending[0]
+			pending = pending[1:]
+			if m.boundary(p.seq) {
+				continue // would make the model's newest ambiguous
+			}
+			p.acc()
+			r.Count("accepts", 1)
+			r.Count("accepts_deferred", 1)
+			m.accept(p.seq)
+		}
 		acc, ok := d.Check(st.Seq)
 		r.Count("checks", 1)
 		if prop == "C04" {
@@ -206,6 +225,14 @@ func run(prop string, h *history, r *res.Result) (v *verdict) {
 			continue
 		}
 		if prop == "C04" && st.Seq > h.Max {
+			continue
+		}
+		if prop == "C04" && st.Defer > 0 {
+			k := len(pending)
+			for k > 0 && pending[k-1].due > i+st.Defer {
+				k--
+			}
+			pending = append(pending[:k], append([]deferred{{acc, st.Seq, i + st.Defer}}, pending[k:]...)...)
 			continue
 		}
 		latest := acc()
@@ -276,6 +303,7 @@ func genHistory(rng *rand.Rand, c05 bool) *history {
 		n = 20 + rng.Intn(60)
 	}
 	pAcc := []float64{1, 1, 0.7, 0.2}[rng.Intn(4)]
+	deferring := !c05 && rng.Intn(3) == 0 // C04: some accept callbacks are invoked only after later checks and accepts
 	// generator-side walk around its own idea of "newest" (simply: last number it asked to accept)
 	var cur uint64
 	switch rng.Intn(6) {
@@ -348,7 +376,11 @@ func genHistory(rng *rand.Rand, c05 bool) *history {
 			}
 		}
 		acc := rng.Float64() < pAcc
-		h.Steps = append(h.Steps, step{s, acc})
+		st := step{Seq: s, Accept: acc}
+		if deferring && acc && rng.Intn(3) == 0 {
+			st.Defer = 1 + rng.Intn(4)
+		}
+		h.Steps = append(h.Steps, st)
 		if acc && s <= h.Max {
 			fwd := s > cur
 			if h.Wrap {
@@ -404,7 +436,7 @@ func exhaustive(prop string, r *res.Result, shard, nshard int) {
 							h := &history{Wrap: wrap, Window: w, Max: max}
 							for i := 0; i < d; i++ {
 								a := accMode == 0 || accMode == 2 && i%2 == 0
-								h.Steps = append(h.Steps, step{seqs[i], a})
+								h.Steps = append(h.Steps, step{Seq: seqs[i], Accept: a})
 							}
 							r.Eval(1)
 							r.Count("exhaustive_histories", 1)
@@ -441,7 +473,7 @@ func main() {
 	flag.Parse()
 	r := res.New(*prop)
 	if *prop == "C04" {
-		r.Rule = "histories of Check/accept drawn from a seeded walk around the newest number (forward steps, every distance 0..window+2 behind, re-checks of accepted numbers, specials around 0/max/2^64/half-space); oracle = set of accepted numbers; distinct = (window mod 64, distance-behind bucket) cells in which a replay of an accepted number was attempted"
+		r.Rule = "histories of Check/accept drawn from a seeded walk around the newest number (forward steps, every distance 0..window+2 behind, re-checks of accepted numbers, specials around 0/max/2^64/half-space; in a third of the histories a third of the accept callbacks are invoked only 1-4 steps later, after other checks and accepts); oracle = set of accepted numbers; distinct = (window mod 64, distance-behind bucket) cells in which a replay of an accepted number was attempted"
 	} else {
 		r.Rule = "same generator restricted to max>=window (wrap: max+1>=2*window, max<2^62); oracle = sliding-window rule from the statement; distinct = (detector kind, window mod 64, expected answer, newer?, distance bucket, anything-accepted?) cells compared"
 	}
